@@ -200,6 +200,10 @@ let run_step (args : (string * string) list) : string =
   (match get_opt args "exits" with
    | Some e -> add "exits" (ok (List.for_all (fun x -> x = 0) (ints_of_string e))) | None -> ());
   (match get_opt args "arcs" with Some a -> add "arcs" a | None -> ());
+  (* a faulty input must be refused with a non-zero status *)
+  (match get_opt args "badexit" with
+   | Some e -> add "badinput" (if e <> "0" then "ok" else "FAIL(exit-0-on-faulty-input)")
+   | None -> ());
   (* an arc-less input: the command must not report success without a file set *)
   (match get_opt args "files" with
    | Some f -> add "nofiles" (ok (f = "1" || get_opt args "exit" <> Some "0")); Buffer.clear res;
